@@ -1,4 +1,6 @@
 def run(ctx):
     from . import scan_proofs
 
-    return scan_proofs.run(ctx, "C03")
+    from . import tree_proofs
+
+    return scan_proofs.run(ctx, "C03") + " " + tree_proofs.run(ctx, "C03")
